@@ -432,6 +432,7 @@ impl Monitor for C06 {
             ("class:injections_non_injective_index_map", 50),
             ("class:new_accept", 50),
             ("class:new_reject", 50),
+            ("class:sizes_up_to_40", 200),
             ("outcome:compose_Some", 100),
             ("outcome:compose_None", 100),
             ("outcome:coequalizer_Some", 100),
@@ -459,7 +460,7 @@ impl Monitor for C06 {
         }
         match r.below(8) {
             0..=2 => {
-                let big = ctx.thorough && r.chance(1, 10);
+                let big = r.chance(1, 10);
                 let (ms, mt) = if big { (40, 40) } else { (8, 8) };
                 let f = gen_f(r, ms, mt);
                 // bias towards composable / parallel partners
@@ -475,7 +476,8 @@ impl Monitor for C06 {
                 self.pair(ctx, &f, &g);
             }
             3..=5 => {
-                let f = gen_f(r, 8, 6);
+                // (table, target); one case in eight has sizes / values up to 40 (blocks longer than 16)
+                let f = if r.chance(1, 8) { ctx.class("sizes_up_to_40"); gen_f(r, 8, 40) } else { gen_f(r, 8, 6) };
                 self.single(ctx, &f, r);
             }
             6 => self.constructors(ctx, r),
